@@ -394,8 +394,11 @@ def h_outcome_lists(renderer, max_len):
             text = lambda t: [SInt(ord(c), "char") for c in t]
             exp = ctx.call(parse, [new_ref(maker), Str(text("want%dq" % i))]).fields[0]
             line = VecBuf([SInt(b, "u8") for b in ("got%dz\n" % i).encode()], "u8")
+            # located == "same": every outcome carries the same location and line number (test cases of prepend / append documents are reported
+            # under the document's location with the line numbers of their own files)
+            same = ctx.notes["located"] == "same"
             tc = mk_struct("TestCase", title=StringBuf(text("title%dt" % i)), shell_expression=StringBuf(text("cmd%dc" % i)), expectations=VecBuf([exp]),
-                           exit_code=none(), line_number=mk_int(3 + 10 * i, "usize"), config=Opaque("config"))
+                           exit_code=none(), line_number=mk_int(3 if same else 3 + 10 * i, "usize"), config=Opaque("config"))
             status = Agg("ExitStatus", "Code", [mk_int(4 if k == "C" else 0, "i32")])
             if k == "P":
                 res = Agg("Result", "Ok", [UNIT])
@@ -415,7 +418,7 @@ def h_outcome_lists(renderer, max_len):
                 res = Agg("Result", "Err", [Agg("TestCaseError", "Skipped", [])])
             out = mk_struct("Output", stderr=Agg("OutputStream", None, [VecBuf([], "u8")]),
                             stdout=Agg("OutputStream", None, [VecBuf(list(line.items) if k in "FC" else [], "u8")]), exit_code=status)
-            loc = some(StringBuf(text("doc%d.md" % (i % 2)))) if ctx.notes["located"] else none()
+            loc = some(StringBuf(text("doc%d.md" % (0 if same else i % 2)))) if ctx.notes["located"] else none()
             outcomes.append(new_ref(mk_struct("Outcome", location=loc, output=out, testcase=tc, format=Agg("ParserType", "Markdown", []),
                                               escaping=Agg("Escaper", "Unicode", []), result=res)))
         ctx.notes["must"], ctx.notes["must_not"] = must, must_not
@@ -429,13 +432,13 @@ def h_outcome_lists(renderer, max_len):
             return False
         text = "".join(chr(c.v) if c.concrete else "?" for c in as_str(value.fields[0]).chars)
         return all(t in text for t in ctx.notes["must"]) and not any(t in text for t in ctx.notes["must_not"])
-    inputs = [("outcomes=%s located=%s" % ("".join(k), loc), mk("".join(k), loc)) for n in range(0, max_len + 1) for k in itertools.product("PFCTS", repeat=n) for loc in (False, True)]
+    inputs = [("outcomes=%s located=%s" % ("".join(k), loc), mk("".join(k), loc)) for n in range(0, max_len + 1) for k in itertools.product("PFCTS", repeat=n) for loc in (False, True, "same") if not (loc == "same" and n < 2)]
     h = e2.Harness("%s_renderer_outcome_lists" % renderer, drive, inputs, post, native=None, judge=None,
                    describe="the %s renderer returns a rendering for every list of outcomes; it contains the unmatched expectation and the unexpected line of every "
                             "test case that failed on its output and the actual exit code of one that failed on its exit code, and nothing (title, command, "
                             "expectation) of a test case that passed" % renderer,
                    bound="every list of 0..%d outcomes over passed / malformed output / wrong exit code / timed out / skipped; with and without locations "
-                         "(two documents alternating)" % max_len)
+                         "(two documents alternating; or one location and one line number for all, as test cases of prepend / append documents have)" % max_len)
     h.models_cls = TextModels
     return h
 
